@@ -56,7 +56,7 @@ chk("C06", "exploration", "sanitizers (gcc ASan+UBSan+LSan; clang libFuzzer+ASan
 chk("C07", "exploration", "sanitizers (gcc ASan+UBSan+LSan, clang libFuzzer) over a single/double-fault JWK matrix + Python json reference monitor",
     "The exhaustive single-fault matrix (every key template x 17 members x 16 substitutes), sampled fault pairs (3e3 / 1.5e5), "
     "key sets mixing good and bad elements, 'keys' of every JSON type, non-JSON text, byte-mutated/truncated JWKs and random "
-    "bytes are loaded through all 9 jwks_load*/jwks_create* entry points under sanitizers; every outcome (set error, item "
+    "bytes are loaded through all 11 jwks_load*/jwks_create* entry points (incl. explicit zero length) under sanitizers; every outcome (set error, item "
     "count, per-item kid/error/message/kty/material) is logged and compared with what Python's json says the document is. "
     "libFuzzer (JWK dictionary, 1.5e5 / 5e6 executions) adds coverage-guided inputs.",
     "Trusted: Python json as reference reader with the ambiguity list of DESIGN 2.6; sanitizers see libjwt code only.",
